@@ -114,7 +114,12 @@ impl Variable {
                 Some(Self::Tuple(elements))
             }
             Type::Void => Some(Variable::Void),
-            Type::Multi(multi_type) => multi_type.iter().next().and_then(Self::of_type),
+            Type::Multi(multi_type) => {
+                // the members of a union have no order: always choose the same one
+                let mut members: Box<[&Type]> = multi_type.iter().collect();
+                members.sort_by_cached_key(|member| member.sort_key());
+                members.iter().find_map(|member| Self::of_type(member))
+            }
             Type::Mut(arc) => Some(
                 Mut {
                     var_type: arc.as_ref().clone(),
